@@ -21,7 +21,7 @@ var revCacheGuardExempt = []GuardExempt{
 }
 
 func checkC16(c *Ctx, r *Report) {
-	r.Explain = "Decides structural necessary conditions of revision-cache coherence and exact accounting: (R1) the lookup map and LRU list are only touched under the cache lock, and a cached value's payload is only read or written under that value's lock; (R2) byte accounting follows the three-state lifecycle — every increment of the shared byte counter is on the success edge of the Loading→Sized compare-and-swap, every decrement (direct or accumulated into a returned byte count) on the Swap(Removed)==Sized edge, and the item size is stored before the compare-and-swap on the insert paths; (R3) every insertion into / deletion from the lookup map is matched by the item gauge (directly, or through the eviction count that each caller applies); (R4) every insertion is followed by the capacity eviction before the lock is released; (R5) channel-changing updates that keep the revision id invalidate the cached revision before the write and, on the mutation feed, before the change is forwarded.; (R7) a failed load removes the placeholder that was inserted for it on every path. Not decided: equality with a fresh load, single-flight loading under all interleavings, totals returning to zero."
+	r.Explain = "Decides structural necessary conditions of revision-cache coherence and exact accounting: (R1) the lookup map and LRU list are only touched under the cache lock, and a cached value's payload is only read or written under that value's lock; (R2) byte accounting follows the three-state lifecycle — every increment of the shared byte counter is on the success edge of the Loading→Sized compare-and-swap, every decrement (direct or accumulated into a returned byte count) on the Swap(Removed)==Sized edge, and the item size is stored before the compare-and-swap on the insert paths; (R3) every insertion into / deletion from the lookup map is matched by the item gauge (directly, or through the eviction count that each caller applies); (R4) every insertion is followed by the capacity eviction before the lock is released; (R5) channel-changing updates that keep the revision id invalidate the cached revision before the write and, on the mutation feed, before the change is forwarded.; (R7) a failed load removes the placeholder that was inserted for it on every path.; (R8) a function that fills a cache entry from a bucket document it read before inserting the entry can drop that entry again on the success path. Not decided: equality with a fresh load, single-flight loading under all interleavings, totals returning to zero."
 	la := newLockAnalysis(c, []string{"LRURevisionCache.lock", "revCacheValue.lock"}, "db")
 	la.Solve()
 	r.Rule("C16-R1", "E1 guardedby", "LRURevisionCache{cache,lruList} under LRURevisionCache.lock; revCacheValue payload fields under revCacheValue.lock (reads need at least the read lock)", 30)
@@ -31,6 +31,7 @@ func checkC16(c *Ctx, r *Report) {
 	c16R5(c, r)
 	c16R6(c, r)
 	c16R7(c, r)
+	c16R8(c, r)
 }
 
 // c16R6: cache payload aliasing. DocumentRevision values handed out by the cache share their History / Channels / Attachments
